@@ -22,8 +22,8 @@ type c14Op struct {
 	Status   string `json:"status,omitempty"` // "", enabled, disabled
 	NewID    string `json:"new_id,omitempty"`
 	Template string `json:"template,omitempty"`
-	Vars     string `json:"vars,omitempty"`  // "", int, float, bad
-	DBRP     string `json:"dbrp,omitempty"`  // explicit dbrp in the request: "", db, db2
+	Vars     string `json:"vars,omitempty"`    // "", int, float, bad
+	DBRP     string `json:"dbrp,omitempty"`    // explicit dbrp in the request: "", db, db2
 	NoWait   bool   `json:"no_wait,omitempty"` // the next request is issued without waiting for the daemon to settle
 }
 
@@ -79,6 +79,7 @@ func init() {
 }
 
 var c14TaskIDs = []string{"t1", "t1x", "t3", "t4"}
+
 // one template id is a prefix of the other, as are task ids t1 / t1x in storage keys
 var c14TmplIDs = []string{"T1", "T1x"}
 
@@ -244,15 +245,15 @@ func c14Gen(c *Ctx) *c14Scenario {
 // ---- reference catalogue ----
 
 type c14MTask struct {
-	Script   string
-	Enabled  bool
-	Template string
-	Vars     string // "", int, float
-	DBRP     string // database of the task's single dbrp; "" = none (a task without dbrps cannot be started)
-	Orphan   bool   // its template has been deleted since: a later template of the same id is another template
-	Started  string // the script the running pipeline was started with (an accepted script change does not reload it)
+	Script    string
+	Enabled   bool
+	Template  string
+	Vars      string // "", int, float
+	DBRP      string // database of the task's single dbrp; "" = none (a task without dbrps cannot be started)
+	Orphan    bool   // its template has been deleted since: a later template of the same id is another template
+	Started   string // the script the running pipeline was started with (an accepted script change does not reload it)
 	StartedDB string // and the database it subscribed to then
-	Running  string // outcome of the last start attempt since the task was last enabled: "" (none or failed), ok, ? (either: see patchTemplate)
+	Running   string // outcome of the last start attempt since the task was last enabled: "" (none or failed), ok, ? (either: see patchTemplate)
 }
 
 // start models one start attempt: a definition that names an InfluxDB cluster that does not exist is accepted
@@ -1079,8 +1080,8 @@ func init() {
 		Run: runC14,
 		Rule: "case = a history of 3-12/25 API requests (create task from a script or a template, patch script/status/id/template/vars/dbrps, delete, create and patch templates; valid and deliberately rejected ones, template updates that fail on one of their tasks, definitions whose start fails, a definition whose running pipeline fails on certain data (written by a 'boom' operation), some requests issued back to back) over 4 task ids and 2 template ids (one id a prefix of another in both sets), template deletion, interleaved with clean restarts and data writes, issued against the real HTTP handler; after every acknowledged request and every restart the catalogue read through GET /tasks, /tasks/<id> and /templates is compared with a reference catalogue, and executing with enabled; the history is then re-executed with an injected failure at up to 8 underlying storage writes inside accepted template updates, and with a crash at up to 8 storage transaction boundaries followed by a restart on a byte copy of the Bolt file and the rest of the history; " +
 			"non-trivial = every case; distinct = distinct (scenario, interleaving signatures) tuples",
-		Real: []string{"services/task_store Service (Open, HTTP handlers, DAOs, updateAllAssociatedTasks, startTask watcher)", "services/storage IndexedStore + Bolt adapter + real bbolt file", "services/httpd Handler routing", "TaskMaster (StartTask/StopTask/DeleteTask), pipeline construction, tick parser/evaluator/formatter"},
-		Stub: []string{"harness StorageService wrapper: crash = abandon the world at a transaction boundary + byte copy; failing Put/Delete/Commit", "server.Server wiring replaced by the harness (storage, alert, task master, task store opened in server order)"},
+		Real:        []string{"services/task_store Service (Open, HTTP handlers, DAOs, updateAllAssociatedTasks, startTask watcher)", "services/storage IndexedStore + Bolt adapter + real bbolt file", "services/httpd Handler routing", "TaskMaster (StartTask/StopTask/DeleteTask), pipeline construction, tick parser/evaluator/formatter"},
+		Stub:        []string{"harness StorageService wrapper: crash = abandon the world at a transaction boundary + byte copy; failing Put/Delete/Commit", "server.Server wiring replaced by the harness (storage, alert, task master, task store opened in server order)"},
 		Assumptions: []string{"a request in flight at a crash may or may not have applied: both catalogues are admissible", "scripts are compared in the formatted form the API returns (tick.Format of the model's script)", "the vocabulary is 7 task scripts and 6 template scripts whose declared vars/dbrps/startability are written down by hand in the model", "a template created after the deletion of one with the same id is another template: tasks of the deleted one are not its tasks until a request gives them that template again", "running batch tasks and template id changes are not part of the generated histories (the one batch definition cannot be started)"},
 	})
 }
